@@ -95,6 +95,10 @@ fn cases() -> Vec<Case> {
             }
         }
     }
+    // temperatures and deteriorations at the ends of the double range: subnormal (1/T overflows), near the largest double
+    for (d, t) in [(1e-320, 1e-320), (5e-321, 1e-320), (2e-320, 1e-320), (4e-320, 1e-320), (5e-324, 5e-324), (1e-323, 5e-324), (2.0e-309, 4.0e-309), (f64::MIN_POSITIVE, f64::MIN_POSITIVE / 2.0), (f64::MIN_POSITIVE, f64::MIN_POSITIVE), (1e308, 1e308), (1.7e308, 1e308), (0.5e308, 1.7e308), (1.0, 1.7e308)] {
+        v.push(Case { cur: 0.0, delta: 0.0, t, same: false, cand: Some(d), scoped: false, adapted: false });
+    }
     // the temperature is state: constructed with a placeholder of 0, set afterwards
     for d in [-1.0, 0.5, 1.0, 10.0] {
         for t in [1.0, 10.0, 1e9] {
@@ -292,7 +296,7 @@ fn check_cooling(alpha: f64, t0: f64, k: usize) -> Option<(String, String)> {
 
 pub fn run(rep: &mut Report) {
     let thorough = rep.tier == Tier::Thorough;
-    rep.alpha("ExponentialAnnealingAcceptance on [sentinel, current, candidate(top)]: f(current)=20, delta = f(candidate) - f(current) in {-10,-1,-1e-9,0,1e-9,0.5,1,10} x T in {0,1e-9,0.1,1,10,1e9}; f(current)=1 with delta in {-1e-15,0,1ulp,1e-15,1e-12} x T in {0,1e-300,1e-17,1e-12}; candidates with the encoding of the current solution but another objective; zeros of different sign as current / candidate; the acceptance in an inner scope below an outer temperature at the other extreme; each x acceptance word over an evenly spaced grid, 0, MAX and the words around the exact threshold exp(-delta/T)*2^53");
+    rep.alpha("ExponentialAnnealingAcceptance on [sentinel, current, candidate(top)]: f(current)=20, delta = f(candidate) - f(current) in {-10,-1,-1e-9,0,1e-9,0.5,1,10} x T in {0,1e-9,0.1,1,10,1e9}; f(current)=1 with delta in {-1e-15,0,1ulp,1e-15,1e-12} x T in {0,1e-300,1e-17,1e-12}; subnormal temperatures with deteriorations of their order, temperatures / deteriorations around 1e308; candidates with the encoding of the current solution but another objective; zeros of different sign as current / candidate; the acceptance in an inner scope below an outer temperature at the other extreme; each x acceptance word over an evenly spaced grid, 0, MAX and the words around the exact threshold exp(-delta/T)*2^53");
     rep.alpha("GeometricCooling on Temperature: alpha in {0,0.5,0.9,0.99} x T0 in {1e-3,1,100} x 1..5 executions");
     rep.assume("the candidate is the top population, as produced by the SA template (copy of the current solution, perturbed)");
     rep.assume("the acceptance probability is decided as the share of evenly spaced acceptance words (first generator word drawn) for which the candidate survives, within 2/grid of exp(-delta/T); decisions taken without any draw must have probability 0 or 1; with exp(-delta/T) below 2^-60 no non-extreme word may accept");
